@@ -2328,6 +2328,18 @@ private:
 
   void drop_some_non_integer_points_helper(N& elem);
 
+  /*! \brief
+    Throws an exception if \p c is dimension-incompatible with \p *this
+    or it is neither a bounded difference nor a trivial constraint.
+  */
+  void check_constraint(const char* method, const Constraint& c) const;
+
+  /*! \brief
+    Throws an exception if \p cg is dimension-incompatible with \p *this
+    or it is neither a bounded difference equality nor a trivial congruence.
+  */
+  void check_congruence(const char* method, const Congruence& cg) const;
+
   friend std::ostream&
   Parma_Polyhedra_Library::IO_Operators
   ::operator<<<>(std::ostream& s, const BD_Shape<T>& c);
